@@ -358,6 +358,128 @@ Proof.
   apply transparent_flat_map. exact zsh_field_char.
 Qed.
 
+(** ** zsh, positional help: escaped in line by [write_positionals_of]; no newline flattening. *)
+Definition zsh_pos_l1_char (c : N) : str :=
+  if c =? 39 then [39] else apply_chain zsh_positional_help_chain [c].
+Definition zsh_pos_l1 (s : str) : str := flat_map zsh_pos_l1_char s.
+
+Lemma zsh_pos_sq_char c :
+  word_transparent sh_step ZSQ (apply_chain zsh_positional_help_chain [c]) (zsh_pos_l1_char c).
+Proof.
+  destruct (in_dec N.eq_dec c (keys zsh_positional_help_chain)) as [Hin|Hout].
+  - key_cases Hin.
+  - unfold zsh_pos_l1_char. rewrite apply_chain_other by (reflexivity || assumption).
+    unfold word_transparent. default_case sh_step Hout. repeat split; reflexivity.
+Qed.
+
+Theorem zsh_pos_sq_word_transparent s :
+  word_transparent sh_step ZSQ (zsh_positional_help s) (zsh_pos_l1 s).
+Proof.
+  unfold zsh_positional_help, zsh_pos_l1. rewrite apply_chain_charwise by reflexivity.
+  apply word_transparent_flat_map. exact zsh_pos_sq_char.
+Qed.
+
+Lemma zsh_pos_field_char c : transparent zspec_step ZsField (zsh_pos_l1_char c) [c].
+Proof.
+  destruct (in_dec N.eq_dec c (keys zsh_positional_help_chain)) as [Hin|Hout].
+  - key_cases Hin.
+  - unfold zsh_pos_l1_char. rewrite apply_chain_other by (reflexivity || assumption).
+    unfold transparent. default_case zspec_step Hout. split; reflexivity.
+Qed.
+
+Lemma flat_map_ret (l : list N) : flat_map (fun c => [c]) l = l.
+Proof. induction l as [|a l IH]; [reflexivity|]. cbn [flat_map app]. now rewrite IH. Qed.
+
+Theorem zsh_pos_field_transparent s : transparent zspec_step ZsField (zsh_pos_l1 s) s.
+Proof.
+  pose proof (transparent_flat_map zspec_step ZsField _ _ zsh_pos_field_char s) as H.
+  rewrite flat_map_ret in H. exact H.
+Qed.
+
+(** ** PowerShell, '...': every single-quote character of the tokenizer is doubled. *)
+Definition powershell_help_chain : chain := powershell_escape_help_pre ++ powershell_escape_string_chain.
+
+Lemma powershell_escape_help_chain s : powershell_escape_help s = apply_chain powershell_help_chain s.
+Proof.
+  unfold powershell_escape_help, powershell_escape_string, powershell_help_chain.
+  destruct s; [reflexivity|]. now rewrite apply_chain_app.
+Qed.
+
+Lemma powershell_sq_char c :
+  transparent ps_step PSQ (apply_chain powershell_help_chain [c]) [flat1 c].
+Proof.
+  destruct (in_dec N.eq_dec c (keys powershell_help_chain)) as [Hin|Hout].
+  - key_cases Hin.
+  - rewrite apply_chain_other by (reflexivity || assumption).
+    unfold transparent, flat1. cbn [final events ps_step fst snd app map]. unfold ps_is_sq.
+    default_case ps_step Hout. split; reflexivity.
+Qed.
+
+Theorem powershell_sq_transparent s :
+  transparent ps_step PSQ (powershell_escape_help s) (flatten s).
+Proof.
+  rewrite powershell_escape_help_chain, apply_chain_charwise by reflexivity.
+  unfold flatten. rewrite <- flat_map_singleton.
+  apply transparent_flat_map. exact powershell_sq_char.
+Qed.
+
+(** ** fish, possible-value help: level 1 is the double-quoted [-a "..."] argument (only backslash-dquote,
+    backslash-dollar, backslash-backslash are escapes, the dollar sign is live); its payload is the '...'-escaped text that fish tokenises again
+    when the completion is offered (level 2, [fish_sq_transparent]). *)
+Definition fish_pv_chain : chain := fish_help_chain ++ fish_escape_double_quoted_chain.
+
+Lemma fish_possible_value_help_chain s : fish_possible_value_help s = apply_chain fish_pv_chain s.
+Proof.
+  unfold fish_possible_value_help, fish_escape_double_quoted, fish_pv_chain.
+  now rewrite fish_escape_help_chain, apply_chain_app.
+Qed.
+
+Lemma fish_dq_char c :
+  transparent fish_step FDQ (apply_chain fish_pv_chain [c]) (apply_chain fish_help_chain [c]).
+Proof.
+  destruct (in_dec N.eq_dec c (keys fish_pv_chain)) as [Hin|Hout].
+  - key_cases Hin.
+  - assert (Hout' : ~ In c (keys fish_help_chain)).
+    { intros H. apply Hout. unfold fish_pv_chain, keys. rewrite map_app. apply in_or_app. now left. }
+    rewrite !apply_chain_other by (reflexivity || assumption).
+    unfold transparent. default_case fish_step Hout. split; reflexivity.
+Qed.
+
+Theorem fish_dq_transparent s :
+  transparent fish_step FDQ (fish_possible_value_help s) (fish_escape_help s).
+Proof.
+  rewrite fish_possible_value_help_chain, fish_escape_help_chain.
+  rewrite (apply_chain_charwise fish_pv_chain) by reflexivity.
+  rewrite (apply_chain_charwise fish_help_chain) by reflexivity.
+  apply transparent_flat_map. exact fish_dq_char.
+Qed.
+
+(** ** sensitivity: the chains as they were before the repairs do not have the property
+    (each witness was first reported by the oracle on the real scripts). *)
+Example powershell_two_quote_chain_insufficient :
+  let old : chain := [([10], [32]); ([39], [39; 39]); ([8217], [39; 8217])] in
+  ~ transparent ps_step PSQ (apply_chain old [8216]) [8216].
+Proof. intros old [F _]. vm_compute in F. discriminate. Qed.
+
+Example fish_help_alone_insufficient_in_double_quotes :
+  ~ transparent fish_step FDQ (fish_escape_help [34]) (fish_escape_help [34]).
+Proof. intros [F _]. vm_compute in F. discriminate. Qed.
+
+Example fish_help_alone_live_dollar :
+  events fish_step FDQ (fish_escape_help [36]) = [Act 36].
+Proof. vm_compute. reflexivity. Qed.
+
+Example zsh_positional_without_backslash_rule_insufficient :
+  let old : chain := [([91], [92; 91]); ([93], [92; 93]); ([39], [39; 92; 39; 39]); ([58], [92; 58])] in
+  events zspec_step ZsField (apply_chain old [92] ++ [58]) = [Lit 58].
+Proof. vm_compute. reflexivity. Qed.
+
+Example replace_order_matters_fish :
+  (* quote before backslash: the backslash of the quote's escape is doubled again *)
+  let swapped : chain := [([39], [92; 39]); ([92], [92; 92])] in
+  final fish_step FSQ (apply_chain swapped [39]) = FW.
+Proof. vm_compute. reflexivity. Qed.
+
 (** ** bash: the generator reads no descriptive text. *)
 Lemma bash_no_text : bash_uses_text = false.
 Proof. vm_compute. reflexivity. Qed.
@@ -414,3 +536,63 @@ Lemma zsh_field_context s rest :
   final zspec_step ZsField (zsh_l1 s ++ rest) = final zspec_step ZsField rest /\
   events zspec_step ZsField (zsh_l1 s ++ rest) = map Lit (flatten s) ++ events zspec_step ZsField rest.
 Proof. apply transparent_context, zsh_field_transparent. Qed.
+
+Lemma zsh_pos_sq_context s rest :
+  final sh_step ZSQ (zsh_positional_help s ++ rest) = final sh_step ZSQ rest /\
+  skeleton (events sh_step ZSQ (zsh_positional_help s ++ rest)) = skeleton (events sh_step ZSQ rest) /\
+  lits (events sh_step ZSQ (zsh_positional_help s ++ rest)) = zsh_pos_l1 s ++ lits (events sh_step ZSQ rest).
+Proof. apply word_transparent_context, zsh_pos_sq_word_transparent. Qed.
+
+Lemma zsh_pos_field_context s rest :
+  final zspec_step ZsField (zsh_pos_l1 s ++ rest) = final zspec_step ZsField rest /\
+  events zspec_step ZsField (zsh_pos_l1 s ++ rest) = map Lit s ++ events zspec_step ZsField rest.
+Proof. apply transparent_context, zsh_pos_field_transparent. Qed.
+
+Lemma powershell_sq_context s rest :
+  final ps_step PSQ (powershell_escape_help s ++ rest) = final ps_step PSQ rest /\
+  events ps_step PSQ (powershell_escape_help s ++ rest) = map Lit (flatten s) ++ events ps_step PSQ rest.
+Proof. apply transparent_context, powershell_sq_transparent. Qed.
+
+(** the literal closes at the generator's quote when what follows is not a quote character
+    (the generators write ")" or "," or a newline after it) *)
+Lemma powershell_sq_closes s c rest : ps_is_sq c = false ->
+  events ps_step PB (39 :: powershell_escape_help s ++ 39 :: c :: rest) =
+  Str 39 :: map Lit (flatten s) ++ Str 39 :: events ps_step PW (c :: rest).
+Proof.
+  intros Hc.
+  change (events ps_step PB (39 :: powershell_escape_help s ++ 39 :: c :: rest))
+    with (Str 39 :: events ps_step PSQ (powershell_escape_help s ++ 39 :: c :: rest)).
+  f_equal. destruct (powershell_sq_context s (39 :: c :: rest)) as [_ E]. rewrite E. f_equal.
+  change (events ps_step PSQ (39 :: c :: rest))
+    with (snd (ps_step PSQQ c) ++ events ps_step (fst (ps_step PSQQ c)) rest).
+  cbn [ps_step]. rewrite Hc. cbn [events]. destruct (ps_bare PW c) as [st' e] eqn:B.
+  cbn [fst snd app]. change (ps_step PW c) with (ps_bare PW c). rewrite B. reflexivity.
+Qed.
+
+Lemma fish_dq_context s rest :
+  final fish_step FDQ (fish_possible_value_help s ++ rest) = final fish_step FDQ rest /\
+  events fish_step FDQ (fish_possible_value_help s ++ rest) =
+    map Lit (fish_escape_help s) ++ events fish_step FDQ rest.
+Proof. apply transparent_context, fish_dq_transparent. Qed.
+
+(** both levels: what the double-quoted list hands on is the '...'-escaped text, which is in turn
+    literal payload -- the flattened help -- when fish tokenises the list entries *)
+Lemma fish_possible_value_two_levels s rest2 :
+  lits (events fish_step FDQ (fish_possible_value_help s)) = fish_escape_help s /\
+  events fish_step FSQ (lits (events fish_step FDQ (fish_possible_value_help s)) ++ rest2) =
+    map Lit (flatten s) ++ events fish_step FSQ rest2.
+Proof.
+  destruct (fish_dq_transparent s) as [_ E]. rewrite E, lits_map_Lit. split; [reflexivity|].
+  apply fish_sq_context.
+Qed.
+
+(** [flatten]: same length, no newline, every other character unchanged. *)
+Lemma flatten_spec s : ~ In 10 (flatten s) /\ length (flatten s) = length s /\
+  (forall i, nth i (flatten s) 0 = if nth i s 0 =? 10 then 32 else nth i s 0).
+Proof.
+  unfold flatten. repeat split.
+  - intros H. apply in_map_iff in H. destruct H as [c [Hc _]]. unfold flat1 in Hc.
+    destruct (N.eqb_spec c 10); [discriminate|congruence].
+  - apply map_length.
+  - intros i. change 0 with (flat1 0) at 1. rewrite map_nth. reflexivity.
+Qed.
